@@ -303,6 +303,19 @@ def run(ctx):
             ctx.add_drift("%d executor vector(s): the predicates hold but %s differs from the prediction; e.g. id %s"
                           % (len(xdrift), sorted(d["drift"]), d["id"]))
 
+    # ---- 5b. bursts of simultaneous notifications, judged after quiescence
+    bp = os.path.join(ctx.tmp, "pburst.ndjson")
+    nburst = 400 if quick else 4000
+    rc, out = vf.run_gotest(ctx, binary, "^TestVfC11Burst$", env={"VF_RESULTS": bp, "VF_COUNT": nburst}, timeout=900)
+    if rc != 0 or "VFSUMMARY" not in out:
+        raise vf.Inconclusive("burst driver failed (rc=%s):\n%s" % (rc, out[-3000:]))
+    bvecs = vf.read_ndjson(bp)
+    if len(bvecs) != nburst:
+        raise vf.Inconclusive("burst driver wrote %d of %d vectors" % (len(bvecs), nburst))
+    bviol, bdrift, tr5 = validate(ctx, "burst", bvecs, 900)
+    bgroups = report(ctx, bviol, {v["id"]: v for v in bvecs}, "simultaneous notifications (seed %d)" % ctx.seed)
+    ctx.log("bursts: %d, %s" % (len(bvecs), {k: len(v) for k, v in bgroups.items()}))
+
     # ---- 6. concurrent safety run (race detector in the thorough tier)
     sp = os.path.join(ctx.tmp, "psafety.ndjson")
     rounds = 12 if quick else 60
@@ -337,13 +350,13 @@ def run(ctx):
                                                                sum(r["mutations"] for r in srecs)))
 
     # ---- evidence
-    trs = [t for t in (tr1, tr2, tr3, tr4) if t]
+    trs = [t for t in (tr1, tr2, tr3, tr4, tr5) if t]
     sample_vec = (differ or sampled)[0]
     ctx.cov = dict(
         states=sum(g.distinct for g in gens) + sum(t.distinct for t in trs),
         transitions=sum(g.generated for g in gens) + sum(t.generated for t in trs),
-        traces_validated_against_impl=ncases + len(rvecs) + len(srecs) + len(xvecs),
-        executor_queries=len(xvecs),
+        traces_validated_against_impl=ncases + len(rvecs) + len(srecs) + len(xvecs) + len(bvecs),
+        executor_queries=len(xvecs), simultaneous_notification_bursts=len(bvecs),
         exhaustive=True, generator_cfg=cfg,
         enumerated_cases=ncases, policy_option_combinations=len(cfgs), picks_predicted=npicks_pred, picks_drained=picks_real,
         exact_agreement=agree, interleaved_cases=n_il, interleaved_iterators=iters_il, judged_by_tlc_predicates=len(vecs), accepted_with_other_replica_order=other_order - len(drift),
